@@ -17,7 +17,7 @@ PROP = "C13"
 SEEDS = [0, 1, 7, 2 ** 31]
 COMPONENT_NAMES = ["laostar", "lrtdp", "astar", "bfs", "qlearning", "sarsa", "expsarsa", "doubleq", "rmax",
                    "bpi", "ga", "semimdp_option", "implicit", "policy_run_on", "policy_evaluate_on",
-                   "pomdp_run_on_fsc", "pomdp_run_on_alpha"]
+                   "pomdp_run_on_fsc", "pomdp_run_on_alpha", "laostar_mixed_labels", "lrtdp_mixed_labels"]
 PROBLEMS = ["p0", "p1", "p2"]
 PROBLEMS_THOROUGH = ["p0", "p1", "p2", "p3", "p4", "p5", "p6", "p7"]
 SEEDS_THOROUGH = SEEDS + [123456789, 42]
@@ -26,15 +26,19 @@ CASES = {"quick": len(COMPONENT_NAMES) * len(PROBLEMS) * len(SEEDS),
 CASE_TIMEOUT = 180
 REQUIRED = ["component_runs", "sentinel_checks", "digest_comparisons_in_process", "digest_comparisons_across_processes",
             "hashseed_processes"]
-RULE = ("17 randomised components (LAO*, LRTDP, A*, BFS, Q/SARSA/ExpSARSA/DoubleQ, R-MAX, bounded policy "
+RULE = ("19 randomised components (LAO*, LRTDP - also on a functional MDP whose state labels mix strings and tuples "
+        "(unsortable) with several initial states -, A*, BFS, Q/SARSA/ExpSARSA/DoubleQ, R-MAX, bounded policy "
         "iteration, gradient ascent, semi-MDP option simulation with string-named options, implicit "
         "distributions, MDP roll-outs / Monte-Carlo evaluation, POMDP roll-outs with multi-state initial "
-        "distributions) x 3 generated problems with STRING states/actions x seeds {0,1,7,2^31} x 3 prior states "
+        "distributions) x 3 generated problems with STRING states/actions x seeds {0,1,7,2^31} (TD learners: "
+        "epsilon/temperature in {(.3,.5),(1,.5),(0,0),(1,0)} by seed) x 3 prior states "
         "of the global generators; then the whole digest table is recomputed in separate processes with "
         "PYTHONHASHSEED in {0,1,4242} (8 values in thorough). distinct = (component, problem, seed); every case "
         "is non-trivial (the component draws random numbers).")
 ASSUMPTIONS = ["digests are canonical reprs (floats by repr, mappings/sets sorted by repr of the key)",
-               "problems use string / int labels (sortable); unsortable mixed label sets have no canonical order"]
+               "components that go through TabularMDP.state_list use string / int labels (sortable): for unsortable label "
+               "sets that list has no canonical order; the purely functional planners (LAO*, LRTDP) are also run with "
+               "mixed str/tuple labels"]
 
 
 # ---------------------------------------------------------------------------------------------
@@ -143,10 +147,52 @@ def problem(pid):
     return out
 
 
+def relabeled(P):
+    """the problem's MDP as a purely functional MDP whose state labels mix strings and tuples (unsortable)"""
+    if "mixed" in P:
+        return P["mixed"]
+    from msdm.core.mdp import MarkovDecisionProcess
+    from msdm.core.distributions import DictDistribution
+    sp = P["sp"]
+    f = {s: (s if i % 2 == 0 else ("t", s, i)) for i, s in enumerate(sp.states)}
+    g = {v: k for k, v in f.items()}
+
+    class Mixed(MarkovDecisionProcess):
+        discount_rate = sp.gamma
+
+        def next_state_dist(self, s, a):
+            return DictDistribution({f[ns]: p for ns, p in sp.succ(g[s], a).items()})
+
+        def reward(self, s, a, ns):
+            return sp.reward(g[s], a, g[ns])
+
+        def actions(self, s):
+            return tuple(sp.acts[g[s]])
+
+        def initial_state_dist(self):
+            return DictDistribution({f[s_]: p for s_, p in sp.init})
+
+        def is_absorbing(self, s):
+            return g[s] in sp.flag
+    P["mixed"] = (Mixed(), f, g)
+    return P["mixed"]
+
+
 def run_component(name, pid, seed):
     """Returns a digestable result."""
     P = problem(pid)
     sp, mdp = P["sp"], P["mdp"]
+    if name in ("laostar_mixed_labels", "lrtdp_mixed_labels"):
+        from msdm.algorithms import LAOStar, LRTDP
+        mm, f, g = relabeled(P)
+        if name == "laostar_mixed_labels":
+            res = LAOStar(heuristic=lambda s: 0.0 if g[s] in sp.flag else 50.0, seed=seed).plan_on(mm)
+            nodes = res.solution_graph.states_to_nodes
+            return dict(iv=res.initial_value, it=res.iterations, v=res.state_value_map,
+                        pol={s: dict(res.policy.action_dist(s).items()) for s in nodes},
+                        order={s: nodes[s]['visitorder'] for s in nodes})
+        res = LRTDP(heuristic=lambda s: 50.0, seed=seed, randomize_action_order=True, bellman_error_margin=1e-2).plan_on(mm)
+        return dict(iv=res.initial_value, V=dict(res.V), pol={s: dict(res.policy.action_dist(s).items()) for s in dict.keys(res.V)})
     if name == "laostar":
         from msdm.algorithms import LAOStar
         from mon.ref import mdp as Rf
@@ -175,7 +221,10 @@ def run_component(name, pid, seed):
     if name in ("qlearning", "sarsa", "expsarsa", "doubleq"):
         from msdm.algorithms import tdlearning as td
         cls = {"qlearning": td.QLearning, "sarsa": td.SARSA, "expsarsa": td.ExpectedSARSA, "doubleq": td.DoubleQLearning}[name]
-        res = cls(episodes=8, step_size=0.5, rand_choose=0.3, softmax_temp=0.5, seed=seed).train_on(mdp)
+        # exploration settings incl. the end points (pure exploration, pure greedy with random tie-breaks)
+        k = (SEEDS_THOROUGH.index(seed) + PROBLEMS_THOROUGH.index(pid)) % 4
+        rc, temp = [(0.3, 0.5), (1.0, 0.5), (0.0, 0.0), (1.0, 0.0)][k]
+        res = cls(episodes=8, step_size=0.5, rand_choose=rc, softmax_temp=temp, seed=seed).train_on(mdp)
         return dict(q={s: dict(row) for s, row in res.q_values.items()}, ep=res.event_listener_results.episode_rewards)
     if name == "rmax":
         from msdm.algorithms.rmax import RMAX
